@@ -94,6 +94,37 @@ class MemCodeInterp(Interp):
         return [(st, None)]
 
 
+def oom_cleanup_rule(prog, chk, rid="R3", primary=True):
+    from . import c16
+    r3 = chk.rule(rid + "-cleanup-under-oom", "on paths that pass a failed allocation every acquired object is still released or handed "
+                  "over exactly once (no leak, no double release, no use after release)", floor=40, primary=primary)
+    reports, res = c16.ownership_reports(prog)
+    bad_fns = set()
+    for rp in reports:
+        if not rp["oom_only"]:
+            continue
+        fn = rp["fn"]
+        why = c16.exempt(rp)
+        key = "%s:%s" % (fn.name, c16.report_key(rp))
+        if why:
+            r3.info(key, "exempt: " + why)
+            continue
+        bad_fns.add(fn.key)
+        exits = ", ".join("`%s` L%s" % (t[:40], l) for t, l in sorted(rp["exits"].items(), key=lambda kv: kv[1] or 0)[:3])
+        if rp["kind"] == "leak":
+            msg = "after an allocation failure, %s acquired at L%s (%s) is neither released nor handed over on the way to %s" % (
+                rp["var"] or rp["names"] or "the allocation", rp["acq_line"], rp["callee"], exits)
+        else:
+            msg = "after an allocation failure: %s (acquired at L%s by %s): %s" % (rp["kind"], rp["acq_line"], rp["callee"], rp["detail"])
+        r3.violation(fn.file, fn.name, rp["acq_line"], c16.report_key(rp), msg, path=["L%s" % x for x in rp["state"].trail_lines()][-25:])
+    for key, it in sorted(res.items()):
+        if it.overflow:
+            r3.unproved(key, "not analysed to a fixpoint")
+        elif key not in bad_fns:
+            r3.ok(key, "clean on all paths through a failed allocation", n=max(1, len(it.acq_nodes)))
+
+
+
 def run(prog, chk):
     chk.level = "other"
     chk.explanation = ("Structural necessary conditions of graceful failure under memory exhaustion, over every allocation site of "
@@ -199,32 +230,7 @@ def run(prog, chk):
     if n_fn < 15:
         raise Broken("only %d functions with may-fail callees" % n_fn)
 
-    r3 = chk.rule("R3-cleanup-under-oom", "on paths that pass a failed allocation every acquired object is still released or handed "
-                  "over exactly once (no leak, no double release, no use after release)", floor=40)
-    reports, res = c16.ownership_reports(prog)
-    bad_fns = set()
-    for rp in reports:
-        if not rp["oom_only"]:
-            continue
-        fn = rp["fn"]
-        why = c16.exempt(rp)
-        key = "%s:%s" % (fn.name, c16.report_key(rp))
-        if why:
-            r3.info(key, "exempt: " + why)
-            continue
-        bad_fns.add(fn.key)
-        exits = ", ".join("`%s` L%s" % (t[:40], l) for t, l in sorted(rp["exits"].items(), key=lambda kv: kv[1] or 0)[:3])
-        if rp["kind"] == "leak":
-            msg = "after an allocation failure, %s acquired at L%s (%s) is neither released nor handed over on the way to %s" % (
-                rp["var"] or rp["names"] or "the allocation", rp["acq_line"], rp["callee"], exits)
-        else:
-            msg = "after an allocation failure: %s (acquired at L%s by %s): %s" % (rp["kind"], rp["acq_line"], rp["callee"], rp["detail"])
-        r3.violation(fn.file, fn.name, rp["acq_line"], c16.report_key(rp), msg, path=["L%s" % x for x in rp["state"].trail_lines()][-25:])
-    for key, it in sorted(res.items()):
-        if it.overflow:
-            r3.unproved(key, "not analysed to a fixpoint")
-        elif key not in bad_fns:
-            r3.ok(key, "clean on all paths through a failed allocation", n=max(1, len(it.acq_nodes)))
+    oom_cleanup_rule(prog, chk)
 
     r4 = chk.rule("R4-no-open-transaction-on-failure", "no exit - including those taken when sqlite3_prepare_v2, BEGIN or an "
                   "allocation fails - leaves a transaction open (C05 R1 over all exits)", floor=7)
@@ -300,6 +306,12 @@ def run(prog, chk):
                    "a failure handler may clean it and hand it back with its kind unchanged)", primary=False, floor=4)
     if memrules.clean_helpers_reset(prog, r12) < 4:
         raise Broken("fewer than 4 frees in *_clean helpers")
+
+    r14 = chk.rule("R14-capacity-is-allocation-count", "after a refused (re-)allocation the capacity recorded is that of the block "
+                   "actually held: every allocation that can be the last before a capacity store agrees with it (shared with C16 R10)",
+                   primary=False, floor=4)
+    if memrules.capacity_matches_allocation(prog, r14) < 4:
+        raise Broken("fewer than 4 capacity stores found in value.c")
 
     r13 = chk.rule("R13-clean-helpers-reset-counters", "a `*_clean` function that releases an indexed block leaves its counters at 0: the "
                    "failure handler of an in-place copy cleans the half-built target and hands it back as an empty list", primary=False, floor=2)
